@@ -237,7 +237,37 @@ def roundtrip(src):
         except Exception:  # noqa
             text2 = "?"
         return ("mismatch", text, text2)
+    # printing must not depend on the history of the term: print every subterm bottom-up first (what a
+    # debugger, a logger or an error message does), then the whole clause, on a fresh parse
+    out3 = run_parse(src)
+    if out3[0] == "ok":
+        try:
+            for c in out3[1]:
+                _print_subterms(c)
+            text3 = print_program(out3[1])
+        except Exception as exc:  # noqa
+            c = classify_exception(exc)
+            return ("print-crash", c[1], c[2] if len(c) > 2 else "?")
+        if text3 != text:
+            return ("history", text, text3)
     return ("ok", text)
+
+
+def _print_subterms(t, depth=0):
+    if depth > 40:
+        return
+    for a in (getattr(t, "args", None) or ()):
+        if hasattr(a, "functor") or hasattr(a, "args"):
+            _print_subterms(a, depth + 1)
+    for attr in ("head", "body", "heads", "child", "op1", "op2"):
+        sub = getattr(t, attr, None)
+        if sub is None or callable(sub):
+            continue
+        for x in (sub if isinstance(sub, (list, tuple)) else [sub]):
+            if hasattr(x, "functor") or hasattr(x, "args"):
+                _print_subterms(x, depth + 1)
+    str(t)
+    repr(t)
 
 
 def rt_symptom(v):
@@ -245,6 +275,8 @@ def rt_symptom(v):
         return "print-crash:%s@%s" % (v[1], v[2])
     if v[0] in ("reparse-error", "mismatch"):
         return "roundtrip-" + v[0]
+    if v[0] == "history":
+        return "print-depends-on-history"
     return None
 
 
@@ -534,7 +566,20 @@ def ctor_roundtrip(d):
         except Exception:  # noqa
             text2 = "?"
         return ("mismatch", text, text2)
+    # printing must not depend on the history of the term: on a freshly built term print every
+    # subterm bottom-up first, then the whole
+    try:
+        t3 = build(d)
+        _print_subterms(t3)
+        text3 = "%s.\n" % (t3,)
+    except Exception as exc:  # noqa
+        c = classify_exception(exc)
+        return ("print-crash", c[1], c[2] if len(c) > 2 else "?")
+    if text3 != text:
+        return ("history", text, text3)
     return ("ok", text)
+
+
 
 
 def ctor_case(d):
@@ -837,6 +882,8 @@ class C17(Prop):
             return "printed as %r which does not parse (%s)" % (v[2], v[1])
         if v[0] == "print-crash":
             return "printing raised %s in %s" % (v[1], v[2])
+        if v[0] == "history":
+            return "printed as %r, but as %r after its subterms were printed first" % (v[1], v[2])
         return repr(v)
 
     def _rt1_cases(self, ci, lo, hi):
